@@ -214,31 +214,37 @@ func RPMFile(info Info, data []byte) (Info, error) {
 		return info, fmt.Errorf("rpm.ReadPackageLead: %w", err)
 	}
 
-	if r.RPMVersion() != "" {
-		info.Description = fmt.Sprintf("RPM (version %s)", r.RPMVersion())
+	// go-rpm's accessors assert the Go type of a tag's value and index its first item without checking; a header
+	// whose tags carry other types or no items must not crash the inspection, so read them defensively.
+	var mainIdx rpm.IndexEntries
+	if len(r.Headers) > 1 {
+		mainIdx = r.Headers[1].Indexes
+	}
+	if v := rpmStringByTag(mainIdx, 1064); v != "" {
+		info.Description = fmt.Sprintf("RPM (version %s)", v)
 	}
 
-	info.Attributes = append(info.Attributes, Attribute{"Name", r.Name()})
-	info.Attributes = append(info.Attributes, Attribute{"Version", r.Version()})
-	info.Attributes = append(info.Attributes, Attribute{"Release", r.Release()})
-	info.Attributes = append(info.Attributes, Attribute{"Architecture", r.Architecture()})
+	info.Attributes = append(info.Attributes, Attribute{"Name", rpmStringByTag(mainIdx, 1000)})
+	info.Attributes = append(info.Attributes, Attribute{"Version", rpmStringByTag(mainIdx, 1001)})
+	info.Attributes = append(info.Attributes, Attribute{"Release", rpmStringByTag(mainIdx, 1002)})
+	info.Attributes = append(info.Attributes, Attribute{"Architecture", rpmStringByTag(mainIdx, 1022)})
 
 	if len(r.Headers) > 0 {
 		sigIdx := r.Headers[0].Indexes
 		if len(sigIdx) > 0 && sigIdx[0].Tag == rpm.RPMTAG_HEADERSIGNATURES {
-			if md5Digest := sigIdx.BytesByTag(rpm.RPMSIGTAG_MD5); len(md5Digest) > 0 {
+			if md5Digest := rpmBytesByTag(sigIdx, rpm.RPMSIGTAG_MD5); len(md5Digest) > 0 {
 				info.Attributes = append(info.Attributes, Attribute{names.MD5, hex.EncodeToString(md5Digest)})
 			}
-			if sha1Digest := sigIdx.StringByTag(rpm.RPMSIGTAG_SHA1); len(sha1Digest) > 0 {
+			if sha1Digest := rpmStringByTag(sigIdx, rpm.RPMSIGTAG_SHA1); len(sha1Digest) > 0 {
 				info.Attributes = append(info.Attributes, Attribute{names.SHA1, sha1Digest})
 			}
-			if sha256Digest := sigIdx.StringByTag(273); len(sha256Digest) > 0 {
+			if sha256Digest := rpmStringByTag(sigIdx, 273); len(sha256Digest) > 0 {
 				info.Attributes = append(info.Attributes, Attribute{names.SHA256, sha256Digest})
 			}
 
 			foundSig := false
 			for _, t := range []int{rpm.RPMSIGTAG_DSA, rpm.RPMSIGTAG_RSA} {
-				if sig := sigIdx.BytesByTag(t); len(sig) > 0 {
+				if sig := rpmBytesByTag(sigIdx, t); len(sig) > 0 {
 					foundSig = true
 					info.Children = append(info.Children, Info{
 						Description: "Signature",
@@ -248,7 +254,7 @@ func RPMFile(info Info, data []byte) (Info, error) {
 			}
 
 			for _, t := range []int{rpm.RPMSIGTAG_GPG, rpm.RPMSIGTAG_PGP} {
-				if sig := sigIdx.BytesByTag(t); len(sig) > 0 {
+				if sig := rpmBytesByTag(sigIdx, t); len(sig) > 0 {
 					foundSig = true
 					info.Children = append(info.Children, Info{
 						Description: "Legacy signature (RPM v3)",
